@@ -41,7 +41,7 @@ def hotEmitI (w : W) : Notif → List IDlv
   | .next v => if w.hotOpen && w.hotEntry && w.connCell then subjCallI w (.next v) else []
   | t =>
     if w.hotOpen then
-      if w.hotEntry && w.connCell && w.subj.observers.isSome then subjCallI w t else []
+      if w.hotEntry && w.connCell then subjCallI w t else []
     else []
 
 def stepI (w : W) : Ev → List IDlv
